@@ -294,6 +294,41 @@ func matches(input []byte, e *parse.Error) []int {
 	return m
 }
 
+// contextCase names how the context of an error that matches no byte of the input differs from the context parse.Position
+// gives for a byte at the same line and column: "letter-case-before-foreign-content" (only ASCII letter case, and only in front
+// of / within the opening tag of the first svg or math element of the line -- names the html lexer has handed out lower-cased
+// in earlier tokens), "letter-case" (only letter case, elsewhere), "" (anything else, or no byte has that line and column).
+func contextCase(input []byte, e *parse.Error) (kind string) {
+	defer func() {
+		if recover() != nil {
+			kind = ""
+		}
+	}()
+	for k := 0; k <= len(input); k++ {
+		l, c, ctx := parse.Position(bytes.NewReader(input), k)
+		if l != e.Line || c != e.Column {
+			continue
+		}
+		if len(ctx) != len(e.Context) || !strings.EqualFold(ctx, e.Context) {
+			return ""
+		}
+		low := strings.ToLower(ctx)
+		limit := -1
+		for _, name := range []string{"<svg", "<math"} {
+			if i := strings.Index(low, name); i >= 0 && (limit < 0 || i < limit) {
+				limit = i + len(name)
+			}
+		}
+		for i := 0; i < len(ctx); i++ {
+			if ctx[i] != e.Context[i] && (limit < 0 || i >= limit) {
+				return "letter-case"
+			}
+		}
+		return "letter-case-before-foreign-content"
+	}
+	return ""
+}
+
 // errTrace runs a parser on input and writes the trace: Input, then one ErrPos per error (or NoErr).
 // It returns the errors. always: write a trace even when no error came out.
 func errTrace(w *tr.Writer, tid int, suite string, opt int, input []byte, ins int, always bool) (errs []perr, panicked bool) {
@@ -320,6 +355,9 @@ func errTrace(w *tr.Writer, tid int, suite string, opt int, input []byte, ins in
 			msg = msg[:60]
 		}
 		ev := tr.E{"line": pe.e.Line, "col": pe.e.Column, "matches": matches(input, pe.e), "cur": pe.cur, "msg": msg}
+		if m, _ := ev["matches"].([]int); len(m) == 0 {
+			ev["ctxcase"] = contextCase(input, pe.e)
+		}
 		if a := pe.alone; a != nil {
 			ev["same"] = a.Line == pe.e.Line && a.Column == pe.e.Column && a.Context == pe.e.Context && a.Message == pe.e.Message
 			ev["alone"] = []int{a.Line, a.Column}
@@ -442,7 +480,9 @@ var corpus = map[string][]string{
 	"html": {"<!doctype html>\n<html><head><title>t\u00e9</title><script>var a = '</b>';\n</script></head>\r\n<body class=a id='b'>x<br/><!-- c --><style>a{b:c}</style></body></html>",
 		"<div a=\"b\nc\" d='e\r\nf'>\n<p g=\"h\ti\">x</p></div>", "<p a=1 b='2' c=\"3\" d>text &amp; more<svg><path d=\"M0\"/></svg><textarea>\U0001F600</textarea>",
 		// foreign content whose inner names are not lower case (the lexer leaves them alone), all on one line
-		"<p a=1><svg viewBox=\"0 0 1 1\"><linearGradient id=\"g\"><G></G></linearGradient><clipPath/>t</svg><math><MI>x</MI><mo>+</mo></math>"},
+		"<p a=1><svg viewBox=\"0 0 1 1\"><linearGradient id=\"g\"><G></G></linearGradient><clipPath/>t</svg><math><MI>x</MI><mo>+</mo></math>",
+		// names outside foreign content that are not lower case (the lexer lower-cases them in its buffer)
+		"<P CLASS=a ID='b'><svg><g>t</g></svg>"},
 }
 var suiteNames = []string{"js", "jslex", "json", "css", "xml", "html"}
 
